@@ -86,7 +86,9 @@ def gen_line(rng, names):
             toks.append(rng.choice(names))
         elif r < 0.6 and names:
             n = rng.choice(names)   # identifiers that merely contain a symbol name
-            toks.append(rng.choice([n + 'X', 'x' + n, n + '2', '_' + n, n + '_' + n, n.lower(), n[:-1] if len(n) > 2 else n + 'q']))
+            toks.append(rng.choice([n + 'X', 'x' + n, n + '2', '_' + n, n + '_' + n, n.lower(), n[:-1] if len(n) > 2 else n + 'q',
+                                    # words that begin with digits and end in the symbol's name (hex literals do): still one word
+                                    '$10' + n, '0x1' + n, '2' + n, '9' + n + 'H', n.swapcase(), n.capitalize()]))
         elif r < 0.8:
             toks.append(rng.choice(['.byte', 'ldi', 'a', 'b', '5', '$ff', 'lbl', 'k', 'Z9', '"str"', "'c'"]))
         else:
@@ -121,6 +123,9 @@ def resolve_corpus():
         {'table': [['BUF', '$20'], ['BUF_SIZE', '4']], 'line': '.byte BUF_SIZE, BUF'},
         {'table': [], 'line': ''},
         {'table': [['AA', '1']], 'line': 'A AA AAA'},
+        {'table': [['BE', '1'], ['DEC', '7'], ['ACE', '9']], 'line': '.2byte $10BE, 0x1DEC, 2ACE, BE, 0ACEH'},
+        {'table': [['LIMIT', '9']], 'line': '.byte LIMIT, limit, Limit'},
+        {'table': [['lo_part', '1'], ['LO_PART', '2']], 'line': '.byte lo_part, LO_PART'},
     ]
 
 
